@@ -98,7 +98,9 @@ DenoteMC(lk) ==
 -----------------------------------------------------------------------------
 MInit == \E n \in 1..MaxL : \E f \in [1..n -> LkOpts] :
            LET lk == [i \in 1..n |-> [ext |-> FALSE, st |-> f[i]]] IN WellTyped(lk) /\ RInit(lk)
-MSpec == MInit /\ [][RNext]_rvars /\ WF_rvars(RNext)
+MSpec == MInit /\ [][RNext]_rvars /\ WF_rvars(AttemptFT \/ AttemptHB \/ Resolve)
+(* every successful resolution lowers Measure, and between two of them there are at most three passes *)
+TerminatesInv == TerminatesWithin(40)
 
 (* bound for the runs that do not terminate (the counterexample of Progress grows one subtable per round) *)
 TotalSubs == SumSeq([i \in 1..Len(lookups) |-> Len(lookups[i].st)], Len(lookups))
